@@ -4,7 +4,7 @@
 #[cfg(not(prometheus_verif_map))]
 use std::collections::{BTreeSet, HashMap};
 #[cfg(prometheus_verif_map)]
-use {crate::verif_map::HashMap, std::collections::BTreeSet};
+use crate::verif_map::{BTreeSet, HashMap};
 use std::hash::Hasher;
 
 use fnv::FnvHasher;
